@@ -236,12 +236,24 @@ func (r *linkRecv) frameOf(s uint32) []byte {
 
 type world3 struct {
 	a, b *world.Party
+	// one pair of parties per receiver: sessions live per State, so receivers built on the same two parties would share
+	// ONE session object - and message types of one class one replay window (thorough tier: all receivers of a call
+	// are used one after the other; a false `fresh-in-window-rejected` on the unchanged tree)
+	own [][2]*world.Party
 }
 
 func (w *world3) receivers() []receiver {
 	// fresh keys => fresh windows on every call; message types of one class share a window, so every receiver
-	// gets a session pair of its own
-	np := func() *pair { return newPair(w.a, w.b) }
+	// gets a session pair - and a pair of parties - of its own
+	k := 0
+	np := func() *pair {
+		if k >= len(w.own) {
+			w.own = append(w.own, [2]*world.Party{world.NewParty(world.NewPrivacyIdentity(), config.Store{}), world.NewParty(world.NewPrivacyIdentity(), config.Store{})})
+		}
+		pp := w.own[k]
+		k++
+		return newPair(pp[0], pp[1])
+	}
 	return []receiver{
 		&rawHandler{h: new(state.SequenceHandler)},
 		&rawHandler{h: state.NewSequenceHandler(), full: true},
